@@ -1,10 +1,13 @@
 //! Live endpoints: each entry point is brought into the phase TLC prescribes by a genuine
 //! peer, then the mutated input is delivered and the endpoint observed.
 pub mod dtls;
+pub mod ice;
 pub mod pc;
 pub mod pump;
+pub mod rtp;
 pub mod sctp;
 pub mod turn;
+pub mod udptl;
 
 use crate::{Ctx, Genuine, apply_bounds, hex, meter, severity};
 use serde_json::{Value, json};
@@ -41,6 +44,10 @@ pub enum Ep {
     Dtls(dtls::Ep),
     Sctp(sctp::Ep),
     Pc(pc::Ep),
+    IceUdp(ice::Udp),
+    IceTcp(ice::Tcp),
+    Rtp(rtp::Ep),
+    Udptl(udptl::Ep),
 }
 
 impl Ep {
@@ -54,6 +61,12 @@ impl Ep {
             "sctp" => Ok(Ep::Sctp(sctp::Ep::build(variant % 2 == 1).await?)),
             "pc_sdp" => Ok(Ep::Pc(pc::Ep::build(false, pc::mode_for(tpl)).await?)),
             "pc_candidate" => Ok(Ep::Pc(pc::Ep::build(true, pc::mode_for("sdp.webrtc")).await?)),
+            "ice_udp" => Ok(Ep::IceUdp(ice::Udp::build().await?)),
+            // first concretisation: a listener of its own; second: the process-wide single-port listener
+            "ice_tcp" => Ok(Ep::IceTcp(ice::Tcp::build(variant % 2 == 1).await?)),
+            // first concretisation: clear RTP; second: SRTP installed
+            "rtp_transport" => Ok(Ep::Rtp(rtp::Ep::build(variant % 2 == 1).await?)),
+            "udptl" => Ok(Ep::Udptl(udptl::Ep::build().await?)),
             _ => Err(format!("unsupported entry {entry}")),
         }
     }
@@ -64,6 +77,10 @@ impl Ep {
             Ep::Dtls(e) => e.progress(to, depth).await,
             Ep::Sctp(e) => e.progress(to, depth).await,
             Ep::Pc(e) => e.progress(to, tpl).await,
+            Ep::IceUdp(e) => e.progress(to).await,
+            Ep::IceTcp(e) => e.progress(to).await,
+            Ep::Rtp(e) => e.progress(to).await,
+            Ep::Udptl(_) => Ok(()),
         }
     }
     /// EXT (beyond the listed property): after the measured step, does the endpoint still serve its genuine peer?
@@ -72,15 +89,19 @@ impl Ep {
             Ep::Turn(_) => None,
             Ep::Dtls(e) => Some(e.still_alive().await),
             Ep::Sctp(e) => Some(e.still_alive().await),
-            Ep::Pc(_) => None,
+            Ep::Pc(_) | Ep::IceUdp(_) | Ep::IceTcp(_) | Ep::Rtp(_) | Ep::Udptl(_) => None,
         }
     }
-    fn genuine(&mut self, tpl: &str) -> Option<Vec<u8>> {
+    async fn genuine(&mut self, tpl: &str) -> Option<Vec<u8>> {
         match self {
             Ep::Turn(e) => e.genuine(tpl),
             Ep::Dtls(e) => e.genuine(tpl),
             Ep::Sctp(e) => e.genuine(tpl),
             Ep::Pc(e) => e.genuine(tpl),
+            Ep::IceUdp(e) => e.genuine(tpl),
+            Ep::IceTcp(e) => e.genuine(tpl),
+            Ep::Rtp(e) => e.genuine(tpl),
+            Ep::Udptl(e) => e.genuine().await,
         }
     }
     async fn feed(&mut self, input: &[u8]) -> Feed {
@@ -89,12 +110,17 @@ impl Ep {
             Ep::Dtls(e) => e.feed(input).await,
             Ep::Sctp(e) => e.feed(input).await,
             Ep::Pc(e) => e.feed(input).await,
+            Ep::IceUdp(e) => e.feed(input).await,
+            Ep::IceTcp(e) => e.feed(input).await,
+            Ep::Rtp(e) => e.feed(input).await,
+            Ep::Udptl(e) => e.feed(input).await,
         }
     }
     /// Entry-specific repair of a mutated input (e.g. the SCTP checksum), given the mutated field.
-    fn prepare_input(&self, input: Vec<u8>, field: &str) -> Vec<u8> {
+    fn prepare_input(&mut self, input: Vec<u8>, field: &str) -> Vec<u8> {
         match self {
             Ep::Sctp(e) => e.prepare_input(input, field),
+            Ep::Rtp(e) => e.prepare_input(input),
             _ => input,
         }
     }
@@ -104,6 +130,10 @@ impl Ep {
             Ep::Dtls(e) => e.observe(),
             Ep::Sctp(e) => e.observe(),
             Ep::Pc(e) => e.observe(),
+            Ep::IceUdp(e) => e.observe(),
+            Ep::IceTcp(e) => e.observe(),
+            Ep::Rtp(e) => e.observe(),
+            Ep::Udptl(e) => e.observe(),
         }
     }
 }
@@ -118,7 +148,7 @@ async fn prepare(ctx: &Ctx, entry: &str, pre: &[Value], ci: usize, depth: u64, f
                 let tpl = op["tpl"].as_str().unwrap();
                 let leaves = ctx.grammars.get(tpl).ok_or("no grammar")?;
                 let idx = leaves.iter().position(|l| l.n == op["field"].as_str().unwrap()).ok_or("no field")?;
-                let g = ep.genuine(tpl).ok_or("no genuine message")?;
+                let g = ep.genuine(tpl).await.ok_or("no genuine message")?;
                 let g = Genuine::new(leaves, g)?;
                 let mut rng = ctx.rng_for(ci, 100 + k as u64);
                 if let Some(input) = g.concretise(leaves, idx, op["mut"].as_str().unwrap(), Some(&mut rng)) {
@@ -136,7 +166,7 @@ async fn prepare(ctx: &Ctx, entry: &str, pre: &[Value], ci: usize, depth: u64, f
 async fn one_run(ctx: &Ctx, entry: &str, pre: &[Value], ci: usize, tpl: &str, class: Option<(usize, &str)>, variant: u64) -> Result<Option<Value>, String> {
     let mut ep = prepare(ctx, entry, pre, ci, variant, tpl).await?;
     let leaves = ctx.grammars.get(tpl).ok_or("no grammar")?;
-    let bytes = ep.genuine(tpl).ok_or(format!("no genuine {tpl} for {entry}"))?;
+    let bytes = ep.genuine(tpl).await.ok_or(format!("no genuine {tpl} for {entry}"))?;
     let g = Genuine::new(leaves, bytes.clone()).map_err(|e| format!("genuine {tpl} does not conform to its grammar table: {e} [{}]", hex(&bytes)))?;
     let input = match class {
         None => bytes,
@@ -231,5 +261,33 @@ pub async fn run_case(ctx: &Ctx, st: &mut State, ci: usize, c: &Value) -> Value 
             w["runs"] = json!(runs);
             w
         }
+    }
+}
+
+/// Development aid: `inputs --probe <entry> <phase> <tpl>` runs the genuine message through one endpoint and prints what happened.
+pub async fn probe(entry: &str, phase: &str, tpl: &str, variant: u64) {
+    let mut ep = match Ep::build(entry, variant, tpl).await {
+        Ok(e) => e,
+        Err(e) => {
+            println!("build failed: {e}");
+            return;
+        }
+    };
+    for p in ["mid", "est", "closing"] {
+        let order = ["pre", "mid", "est", "closing"];
+        if order.iter().position(|x| *x == p) <= order.iter().position(|x| *x == phase) {
+            match ep.progress(p, variant, tpl).await {
+                Ok(()) => println!("progress {p}: ok"),
+                Err(e) => println!("progress {p}: {e}"),
+            }
+        }
+    }
+    let g = ep.genuine(tpl).await;
+    println!("genuine: {:?}", g.as_ref().map(|g| crate::hex(g)));
+    if let Some(g) = g {
+        let t0 = std::time::Instant::now();
+        let f = ep.feed(&g).await;
+        let o = ep.observe();
+        println!("feed: processed={} note={} post={} panic={:?} finished={} wall={:?}", f.processed, f.note, o.post, o.task_panic, o.task_finished, t0.elapsed());
     }
 }
